@@ -363,6 +363,9 @@ var checkTTest = ev.Register("ttest", func(c *Case) ev.Outcome {
 	} else {
 		classes = append(classes, "transform-degenerate")
 	}
+	if c.Kind == "welch" && len(c.X1) != len(c.X2) && stats.Variance(c.X1) == stats.Variance(c.X2) {
+		classes = append(classes, "welch-equal-variance-unequal-n")
+	}
 	nt := r.P > 1e-12 && r.P < 1-1e-12
 	return ev.OK(nt, classes...)
 })
@@ -472,7 +475,18 @@ func drawData(t *rapid.T, n int, label string) []float64 {
 		// keep |x| <= 1e6 without changing the relative spread
 		centre, spread = centre*1e6/m, spread*1e6/m
 	}
-	shape := rapid.IntRange(0, 3).Draw(t, label+".shape")
+	shape := rapid.IntRange(0, 4).Draw(t, label+".shape")
+	if shape == 4 {
+		// small integers: coincidences such as two samples of different size with
+		// bit-identical variance ({10,12} and {3,3,4,6}) only occur on such data
+		base := float64(rapid.IntRange(-3, 12).Draw(t, label+".ibase"))
+		span := rapid.IntRange(1, 3).Draw(t, label+".ispan")
+		xs := make([]float64, n)
+		for i := range xs {
+			xs[i] = base + float64(rapid.IntRange(0, span).Draw(t, label+".iv"))
+		}
+		return xs
+	}
 	xs := make([]float64, n)
 	for i := range xs {
 		var z float64
@@ -501,6 +515,9 @@ func drawCase(t *rapid.T) *Case {
 	c := &Case{Kind: rapid.SampledFrom([]string{"pooled", "welch", "paired", "one"}).Draw(t, "kind"), Alt: rapid.IntRange(-1, 1).Draw(t, "alt")}
 	sizeKind := rapid.IntRange(0, 9).Draw(t, "sizeKind")
 	n1, n2 := rapid.IntRange(2, 40).Draw(t, "n1"), rapid.IntRange(2, 40).Draw(t, "n2")
+	if rapid.IntRange(0, 2).Draw(t, "smallSizes") == 0 {
+		n1, n2 = rapid.IntRange(2, 6).Draw(t, "n1s"), rapid.IntRange(2, 6).Draw(t, "n2s")
+	}
 	if sizeKind == 0 { // error territory
 		n1, n2 = rapid.IntRange(0, 2).Draw(t, "n1e"), rapid.IntRange(0, 2).Draw(t, "n2e")
 	}
@@ -518,6 +535,18 @@ func drawCase(t *rapid.T) *Case {
 			}
 		} else {
 			c.X2 = drawData(t, n2, "x2")
+		}
+	}
+	if (c.Kind == "welch" || c.Kind == "pooled") && rapid.IntRange(0, 5).Draw(t, "equalVar") == 0 {
+		// two samples of different size whose variances are equal (2m^2): {0,2m} and {0,0,m,3m},
+		// shifted by integers and shuffled
+		m := rapid.SampledFrom([]float64{1, 2, 0.5, 4, 3}).Draw(t, "evScale")
+		s1 := float64(rapid.IntRange(-20, 20).Draw(t, "evShift1"))
+		s2 := float64(rapid.IntRange(-20, 20).Draw(t, "evShift2"))
+		c.X1 = []float64{s1, s1 + 2*m}
+		c.X2 = gen.Shuffled(t, []float64{s2, s2, s2 + m, s2 + 3*m}, "evPerm")
+		if rapid.Bool().Draw(t, "evSwap") {
+			c.X1, c.X2 = c.X2, c.X1
 		}
 	}
 	if sizeKind == 2 && n1 > 0 { // zero variance
